@@ -349,19 +349,33 @@ class Stash:
         if message is None:
             message = b"A stash on " + self._repo.head()
 
-        # TODO(jelmer): Just pass parents into do_commit()?
-        self._repo.refs[self._ref] = self._repo.head()
-
+        # Create the stash commit without touching any ref, then move
+        # refs/stash in a single step: pointing it at HEAD first would leave
+        # it at a value that is neither the previous stash nor the new one if
+        # the process dies in between.
+        head = self._repo.head()
         cid: ObjectID = self._repo.get_worktree().commit(
-            ref=self._ref,
+            ref=None,
             tree=stash_tree_id,
             message=message,
-            merge_heads=[index_commit_id],
+            merge_heads=[head, index_commit_id],
             no_verify=True,
             sign=False,
             config=config,
             **commit_kwargs,
         )
+        try:
+            old_stash: ObjectID | None = self._repo.refs[self._ref]
+        except KeyError:
+            old_stash = None
+        if not self._repo.refs.set_if_equals(
+            self._ref,
+            old_stash,
+            cid,
+            message=b"commit: " + message,
+            committer=committer,
+        ):
+            raise KeyError(self._ref)
 
         # Reset working tree and index to HEAD to match git's behavior
         # Use update_working_tree to reset from stash tree to HEAD tree
